@@ -58,10 +58,14 @@ SPEC = dict(
           "interface and foreign parameter types, several parameters, zero-arg constants of every result kind incl. "
           "2^53 / MaxUint64, trailing error nil/non-nil/not last, six panicking bodies, variadic of several kinds, "
           "defined types of primitive kind (time.Duration style) as parameter and result, two non-functions) + 12 plugin functions (util.ECALPluginFunction: returning values, errors, panicking on a missing / NULL / wrong-kind argument, explicit panic, nil-map write, nil dereference) registered through the real stdlib.AddStdlibPluginFunc / LoadStdlibPlugin via the package's pluginTestLookup hook + every function of the generated stdlib (enumerated from GetStdlibSymbols) x all "
-          "argument vectors over a 28-value universe {null,true,false,0,-1,1,1.5,127,128,255,256,2^31,2^53,1e300,NaN,"
-          "'','a','1',[],[1],{},{'a':1},an ECAL function,-129,-0.5,2^63,-Inf,1.5*2^63}: Run called directly for length <=2 "
-          "(quick) / <=3 (thorough) exhaustively and 3 / 4,5 sampled, through the interpreter (arguments as ECAL literals "
-          "where one exists) and inside try (arguments in variables) for length <=2 exhaustively and 3 (thorough: 3 and 4) sampled. Compared: outcome class (value / the function's own "
+          "argument vectors over a 42-value universe (28 core values + 14 further numbers) {null,true,false,0,-1,1,1.5,127,128,255,256,2^31,2^53,1e300,NaN,"
+          "'','a','1',[],[1],{},{'a':1},an ECAL function,-129,-0.5,2^63,-Inf,1.5*2^63 | 40000,2^31-1,65536,2^32,2^64,-2^31-1,-2^63,0.1,2^24+1,3.4028235677973366e38 (rounds to +Inf in float32),+Inf,-0.0,1e-40 (float32 subnormal),1e-46 (underflows)}: Run called directly for length <=2 "
+          "over the whole universe and (thorough) length 3 over the core values exhaustively, 3 / 4,5 sampled, through the interpreter (arguments as ECAL literals "
+          "where one exists) and inside try (arguments in variables) for length <=1 over the whole universe and length 2 over the core values exhaustively "
+          "(generated stdlib in the quick tier: sampled), 3 (thorough: 3 and 4) sampled. For the 64 real stdlib functions the returned value is compared "
+          "(float bits) with a direct reflect call of the wrapped Go function on the converted arguments. Error values returned by the functions: a plain "
+          "error, a typed nil pointer, an Error() that panics, a nil *util.RuntimeError / *RuntimeErrorWithDetail, a proper *util.RuntimeError. "
+          "panic(nil) is run under the harness's own semantics (go >= 1.21) and under GODEBUG=panicnil=1 (modes d/i/t). Compared: outcome class (value / the function's own "
           "error / bridge error / escaped panic), the returned value (float64 bits, canonical structure), and the "
           "Go values the function RECEIVED (kind + exact integer); where an argument is converted out of its parameter kind's range "
           "(implementation-defined in Go) only the outcome class is compared. Plus mode R (interpreter side, rt_identifier.go): small recursive programs "
@@ -73,9 +77,13 @@ SPEC = dict(
     exhaustive="all argument vectors up to the stated length for every function",
     trusted_base=[
         "reflect's behaviour (Call panics, TypeOf, Kind) as modelled in Ecal.Bridge — tied by the correspondence run",
+        "Go's defer/recover semantics: a deferred function that calls recover() itself stops a panic of the deferring function; totality (bridge_total) is that semantics + the regenerated source facts, the model of reflect's panics adds nothing to it",
+        "panic(nil): with go >= 1.21 semantics it is an ordinary panic (*runtime.PanicNilError); in a binary whose main module declares go < 1.21 (GODEBUG panicnil=1; /repo's go.mod says go 1.12) recover() returns nil — modelled as BodyOut.panicNil and run under both settings",
+        "float32 conversion: Num.toF32 is IEEE round-to-nearest-even with subnormals, overflow and signed zero; proved exact for representable values (float32_exact_when_representable), the rounding itself is tied by the correspondence run (0.1, 2^24+1, 2^31-1, MaxFloat32+, 1e-40, 1e-46)",
         "the go/ast extractor of three source facts (harness C19 -tool, go/cmd/harness/c19extract.go), decided semantically and three-valued: Run defers a function (literal or same-package) that itself calls recover() and assigns the named error result; the argument count is compared with NumIn() before Call (Run or one level of helpers); plugin functions are registered as ECALFunctionAdapter. Only a refuted fact breaks an obligation; an unestablished one is assumed, noted, and answered with an amplified search",
         "the harness sets stdlib.pluginTestLookup (unexported test hook) by go:linkname",
         "out-of-range float->integer conversion is implementation-defined in Go: the platform's value is handed to the model as an oracle and no exactness theorem covers it",
+        "interpreter/rt_identifier.go executeFunction: the Debugger hooks (VisitStepInState / VisitStepOutState) are not attached in the runs and not modelled; rerr.Type = err for iterator error texts is not modelled",
         "bodies of the generated stdlib (math.*) are assumed not to panic (checked by every run); math.jn/math.yn with |order| > 256 are left out (slow bodies)",
     ],
     assumptions=[
@@ -87,18 +95,28 @@ SPEC = dict(
 )
 
 META = dict(
-    technique="Lean 4 theorems over a step-by-step model of ECALFunctionAdapter.Run for arbitrary signatures, bodies and argument vectors + go/ast-regenerated side obligation (defer/recover shape) + differential correspondence with the real adapter and interpreter",
-    level_text=("Proof: for every signature, function body, argument vector of any length and out-of-range oracle, Run returns "
-                "(no panic escapes; needs the regenerated fact that Run's first statement defers a recover closure assigning the named "
-                "result err); too many / too few arguments, an argument of an incompatible kind, NULL anywhere, or a panicking body give "
-                "a bridge error without (re)running the function; in-range integral numbers arrive as exactly that Go integer for every "
-                "integer kind, float64 unchanged; integer results up to 2^53 and float results come back exactly; a trailing error is "
-                "delivered as the call's error, nil as none. Model tied to adapter.go and rt_identifier.go by an exhaustive-for-short differential run."),
-    level_note=("Trusted: Lean kernel + propext/Classical.choice/Quot.sound; the model of reflect's checks; the extractor; the harness. "
-                "Out-of-range float->int conversions are implementation-defined and only covered by totality. "
-                "Observation (not a violation of C19): parameters of interface type — including plain interface{} — reject every argument, "
-                "a variadic ...interface{} function (the shape of plugin functions) accepts at most one variadic argument (NumIn counts the slice once), "
-                "and a parameter of a defined numeric type (time.Duration) never accepts a number — all three answered with an error, proved as theorems."),
+    technique="Lean 4 theorems over a step-by-step model of ECALFunctionAdapter.Run and of executeFunction's handling of the returned error value, for arbitrary signatures, bodies, error values and argument vectors + five go/ast-regenerated three-valued source facts as side obligations + differential correspondence with the real adapter, plugin registration and interpreter (direct, ECAL call, inside try, re-entered call sites, concurrent evaluation, both panic(nil) semantics)",
+    level_text=("Proof about the model: for every signature, function body, argument vector of any length and out-of-range oracle — too many / too few "
+                "arguments, an argument of an incompatible kind (also a non-list for a []interface{} parameter), NULL anywhere, or a body that panics on "
+                "what it receives (also panic(nil) with the pre-1.21 semantics) give a bridge error without running the function further; a fitting "
+                "call runs the function; numbers whose truncation is in range arrive as exactly that Go integer for every integer kind (fractions "
+                "truncated), float64 unchanged, float32 IEEE-rounded (proved exact when representable); results whose STATIC type is numeric — and "
+                "numbers inside a result declared as interface{} (every plugin function) — come back as ECAL numbers, integers exactly up to 2^53, "
+                "for every position of a multi-result; a trailing error is delivered as the call's error, nil as none; whatever kind of error value "
+                "comes back (typed nil, panicking Error(), nil *RuntimeError), executeFunction yields a value or a catchable runtime error. "
+                "Totality itself (no panic escapes Run / the interpreter) is NOT a consequence of the model of reflect: it is Go's defer/recover "
+                "semantics plus the regenerated source facts (recover shape, completion flag for panic(nil), guarded Error()/AddTrace, plugin "
+                "registration behind the adapter), and the differential run. Model tied to adapter.go, stdlib.go and rt_identifier.go by a run that is "
+                "exhaustive for short vectors over a 42-value universe (not over all ECAL values)."),
+    level_note=("Trusted: Lean kernel + propext/Classical.choice/Quot.sound; the model of reflect's checks; the extractor; the harness; Go's defer/recover and "
+                "GODEBUG panicnil semantics. Out-of-range float->int conversions are implementation-defined and only covered by totality. The theorems "
+                "describe /repo WITH fixes/C19-error-value-after-recover.patch, C19-panic-nil.patch and C19-iface-result-numbers.patch; on a tree without "
+                "them the check reports the three defects (findings/C19-defect-E1/E2/E3-*.json). Still passed through raw by the code (not covered by the "
+                "'delivered as ECAL numbers' clause as proved): numbers nested in returned slices/maps ([]int, []interface{}{1,int8(2)}), complex numbers. "
+                "Limitations proved as theorems, each answered with an error: parameters of interface type — including plain interface{} — reject every "
+                "argument; a variadic ...interface{} function (plugins) accepts at most one variadic argument; numeric variadics (...int, ...float64) and "
+                "parameters of a defined numeric type (time.Duration) accept no number. Mode R's reference semantics (Ecal.Reentry) is a specification; "
+                "the evidence that resolveFunction follows it is the differential run only."),
 )
 
 
